@@ -30,54 +30,23 @@ STATUS_NUMBERS = {
 def lookup_language(facts, f_try, adt, raw, table):
     """The parser written as a search of a table of all values for the one whose canonical spelling equals the
     input:  ALL.iter().copied().find(|v| v.raw() == bytes).ok_or(err).  Its language is raw() over the table."""
-    leaves = [l for l in PathEnum(f_try, facts).run() if l.kind == "return"]
-    if len(leaves) != 1:
+    from ..tables import table_search
+    ts = table_search(facts, f_try, adt)
+    if ts is None or ts["mode"] != "exact" or ts["conds"]:
         return None
-    r = look(leaves[0].ret())
-    if not (is_call(r, "ok_or", "ok_or_else") and r[2]):
+    if look(ts["subject"]) != ("arg", 1):
         return None
-    fd = look(r[2][0])
-    while fd[0] == "mut":
-        fd = look(fd[1])
-    if not (is_call(fd, "find") and len(fd[2]) == 2):
+    try:
+        tbl = table if ts["item_fn"] == raw else enum_const_table(facts, facts.fns[ts["item_fn"]], adt)
+    except AnalysisError:
         return None
-    it = look(fd[2][0])
-    while it[0] == "mut" or is_call(it, "copied", "cloned", "into_iter"):
-        it = look(it[1]) if it[0] == "mut" else look(it[2][0])
-    if not is_call(it, "iter"):
-        return None
-    arr = look(it[2][0])
     discr = facts.variant_discr(adt)
-    if arr[0] == "const" and isinstance(arr[1], bytes):
-        variants = [discr.get(b) for b in arr[1]]
-    elif arr[0] == "array":
-        variants = [x[2] if x[0] == "agg" else None for x in arr[1]]
-    else:
-        return None
-    if None in variants:
-        return None
-    clo = look(fd[2][1])
-    if not (clo[0] == "closure" and clo[1] in facts.fns and len(clo[2]) == 1 and look(clo[2][0]) == ("arg", 1)):
-        return None
-    good = True
-    for l2 in PathEnum(facts.fns[clo[1]], facts).run():
-        rr = look(l2.ret())
-        ok = False
-        if rr[0] == "call" and rr[1].endswith("PartialEq::eq") and len(rr[2]) == 2:
-            for a, b in ((rr[2][0], rr[2][1]), (rr[2][1], rr[2][0])):
-                a, b = look(a), look(b)
-                item_ok = is_call(a, raw) and look(a[2][0]) in (("arg", 2), ("deref", ("arg", 2)))
-                cap_ok = b[0] == "field" and look(b[1]) == ("arg", 1)
-                ok = ok or (item_ok and cap_ok)
-        good = good and ok
-    if not good:
-        return None
     accept = {}
-    for v in variants:
-        c = table[v]
+    for v in ts["variants"]:
+        c = tbl[v]
         b = c if isinstance(c, bytes) else str(c).encode()
         accept.setdefault(b, v)      # find() returns the first match
-    missing = [v for v in discr.values() if v not in variants]
+    missing = [v for v in discr.values() if v not in ts["variants"]]
     inexact = ["the lookup table leaves out %s" % missing] if missing else []
     return accept, inexact
 
@@ -140,7 +109,18 @@ def media_type(ctx):
     ctx.touched(f_try, f_str)
     table = enum_const_table(facts, f_str, "common::headers::MediaType")
     ctx.ob("R16.1", "MediaType|canonical-spellings", table == {"PlainText": "text/plain", "ApplicationJson": "application/json"}, "MediaType::as_str table %r" % table, f_str.loc(0))
-    acc, subjects, other_ok = string_matcher(facts, f_try, folds={"common::headers::MediaType::as_str": table})
+    from ..tables import table_search
+    MT = "common::headers::MediaType"
+    ts = table_search(facts, f_try, MT)
+    if ts is not None and ts["mode"] == "exact":
+        # written as a search of a table of all media types for the one whose as_str() equals the (trimmed) input
+        tbl = table if ts["item_fn"] == f_str.name else enum_const_table(facts, facts.fns[ts["item_fn"]], MT)
+        acc = {}
+        for v in ts["variants"]:
+            acc.setdefault(tbl[v] if not isinstance(tbl[v], bytes) else tbl[v].decode("latin-1"), v)
+        subjects, other_ok = [ts["subject"]], []
+    else:
+        acc, subjects, other_ok = string_matcher(facts, f_try, folds={"common::headers::MediaType::as_str": table})
     ctx.ob("R16.1", "MediaType|only-by-comparison", not other_ok, "every Ok return is selected by an == comparison with a constant (%d other Ok paths)" % len(other_ok), f_try.loc(0))
     ctx.ob("R16.1", "MediaType|one-subject", len({norm(s) for s in subjects}) == 1, "all comparisons test the same derived string (%d subjects)" % len(subjects), f_try.loc(0))
     image = {v: k for k, v in table.items()}
